@@ -385,6 +385,7 @@ def correspond(ctx):
         programs.update(('ReactionContainer.compose', 'Graph.union', 'Graph.remap'))
         ctx.dist('rxn:roles=%d/%d/%d' % tuple(min(len(x), 3) for x in mols))
         ctx.dist('rxn:' + (real if isinstance(real, str) else 'ok'))
+    small_exhaustive(ctx, s_comp, s_exact)
     _state['cases'] = cases
     s_fmt, s_read, s_tok = Stream(ctx, 'fmt'), Stream(ctx, 'read'), Stream(ctx, 'tokens')
     format_and_read(ctx, rng, raws, cases, s_fmt, s_read, programs)
@@ -405,6 +406,32 @@ def correspond(ctx):
     _state['disagreements'] = disagreements
     ctx.cov['programs'] = len(programs)
 
+
+
+def small_exhaustive(ctx, s_comp, s_exact):
+    """every pair of sides over atoms {1,2,3}: any atom subset per side, every bond-order assignment from {none, 1, 2} on the
+    pairs inside the subset (40 sides -> 1600 ordered pairs), product atom 1 neutral or charged: all six atom/bond
+    categories of compose in every combination on three atoms"""
+    sides = []
+    for mask in range(8):
+        atoms = [a for a in (1, 2, 3) if mask >> (a - 1) & 1]
+        pairs = list(itertools.combinations(atoms, 2))
+        for orders in itertools.product((0, 1, 2), repeat=len(pairs)):
+            sides.append(Raw({a: [6, None, 0, False] for a in atoms}, {p: o for p, o in zip(pairs, orders) if o}))
+    n = 0
+    for R in sides:
+        for P0 in sides:
+            for ch in ((0, 1) if 1 in P0.atoms and 1 in R.atoms else (0,)):
+                P = P0.copy()
+                if ch:
+                    P.atoms[1][2] = ch
+                r, p = build(R, labels=False), build(P, labels=False)
+                line = wire.mol_to_line(r) + ' ' + wire.mol_to_line(p)
+                real = outcome(lambda: r ^ p)
+                s_comp.add('compose ' + line, real if isinstance(real, str) else cgr_canon(real), {'small': n},
+                           nontrivial=bool(R.atoms or P.atoms))
+                n += 1
+    ctx.dist('compose:small-exhaustive-3-atoms', n)
 
 
 # ------------------------------------------------------------------------------------------------
